@@ -418,6 +418,44 @@ def clause7_linked(ctx, P, cg, own):
         raise AnalysisBroken("list linking sites: %d static, %d on paths" % (nsites, nlink))
 
 
+def clause8_fetch_unsubscribed(ctx, P, cg, own):
+    """a fetch is released only after it has been taken out of the fetcher tables of ALL states it may have been added to"""
+    ADD, REMOVE_ALL, FREE = "add_fetch_to_state", "remove_fetch_from_states", "free_fetch"
+    for nm in (ADD, REMOVE_ALL, FREE):
+        if len(P.by_src.get(nm, [])) != 1:
+            raise AnalysisBroken("fetch.c: %s not found" % nm)
+    n = 0
+    for f in P.own_functions():
+        if not f.calls(FREE):
+            continue
+        bad = None
+        for v in own.views(f):
+            calls = [(k, i) for k, i in v.calls()]
+            for k, i in calls:
+                if not i.callee or P.srcname_of(i.callee) != FREE:
+                    continue
+                n += 1
+                T = P.term(f, i.a[0])
+                sub_pos = None
+                for k2, j in calls:
+                    if k2 >= k or not j.callee:
+                        continue
+                    if any(P.term(f, a) == T for a in j.a) and \
+                            (P.srcname_of(j.callee) == ADD or any(P.srcname_of(x) == ADD for x in cg.reach(j.callee))):
+                        sub_pos = k2
+                if sub_pos is None:
+                    continue
+                unsub = any(sub_pos < k3 < k and j.callee and P.srcname_of(j.callee) == REMOVE_ALL and P.term(f, j.a[0]) == T for k3, j in calls)
+                if not unsub:
+                    bad = (v, i)
+        ctx.ob("C07.8 R-TYPESTATE", f, "fetch-freed-only-after-unsubscribing", bad is None,
+               "free_fetch() at %s releases a fetch that may already sit in the fetcher tables of states (it was handed to a function "
+               "that reaches add_fetch_to_state on this path) without remove_fetch_from_states() in between: the next change/remove of "
+               "such a state notifies through freed memory" % (bad[1].loc if bad else ""), witness=bad[0].witness() if bad else None)
+    if n < 4:
+        raise AnalysisBroken("free_fetch call instances on paths: %d" % n)
+
+
 def run(ctx):
     for cfg in ctx.configs(["default"] if ctx.tier == "quick" else None):
         P, cg = cfg.P, cfg.cg
@@ -430,3 +468,4 @@ def run(ctx):
         clause5_cap(ctx, P)
         clause6_shutdown(ctx, P, cg)
         clause7_linked(ctx, P, cg, own)
+        clause8_fetch_unsubscribed(ctx, P, cg, own)
